@@ -47,7 +47,7 @@ def stage_mc_parser(run, n, alphabet, emit=True, liveness=False, name="mc_parser
 # ------------------------------------------------------------------------------------------------
 # stage: enumerate the same token space through the real parser
 # ------------------------------------------------------------------------------------------------
-def stage_enum(run, n, alphabet, observe=False, trace=False, accepted_only=True, name="enum", random=0, rlen=8):
+def stage_enum(run, n, alphabet, observe=False, trace=False, accepted_only=True, name="enum", random=0, rlen=8, json=False):
     outs, traces, argsets = [], [], []
     k = NPROC if not random else 1
     for i in range(k):
@@ -57,6 +57,8 @@ def stage_enum(run, n, alphabet, observe=False, trace=False, accepted_only=True,
             a.append("-accepted-only")
         if observe:
             a.append("-observe")
+        if json:
+            a.append("-json")
         if trace:
             t = os.path.join(run.work, "%s_trace_%d.ndjson" % (name, i))
             a += ["-trace", t]
@@ -187,7 +189,7 @@ def stage_judge_enum(run, resfile, prop, name="judge_enum", keep=False, replay=N
         return
     for line in first_lines(resfile, 60)[-2:]:
         c = json.loads(line)
-        run.add_sample({"kind": "real Parse result judged by " + prop, "q": c["q"], "tokens": [t["t"] for t in c["toks"]],
+        run.add_sample({"kind": "real Parse result judged by " + prop, "q": c["q"], "tokens": [t["t"] for t in c.get("toks", [])],
                         "tree": c["res"]["tree"], "outcome": c["res"]["outcome"]})
     j, vfiles, d = run.judge(name, "JudgeEnum", prop, resfile, unit=6000, keep=keep)
     run.traces += j["accepted"]
@@ -229,13 +231,15 @@ def stage_gen_trees(run, kinds, depth, ws=1, sample=0, muts=0, name="gen_trees",
     return os.path.join(d, "cases.ndjson"), g
 
 
-def stage_groups(run, casefile, trace_every=0, name="parse_groups", observe=False, sql=False):
+def stage_groups(run, casefile, trace_every=0, name="parse_groups", observe=False, sql=False, json=False):
     res = os.path.join(run.work, name + ".ndjson")
     a = ["parse-groups", "-in", casefile, "-out", res]
     if observe:
         a.append("-observe")
     if sql:
         a.append("-sql")
+    if json:
+        a.append("-json")
     tr = None
     if trace_every:
         tr = os.path.join(run.work, name + "_trace.ndjson")
